@@ -877,6 +877,116 @@ def random_case(W, rng, abbr):
 
 
 # ---- evaluating one case ---------------------------------------------------------------------------------
+def run_real_reload(W, rc1, rc2):
+    """The application object loads the sources of rc1, then - the way a HUP does it - loads again (Application.do_load_config)
+    after the files on disk have become those of rc2 (same command line, same environment).  Returns like run_real."""
+    saved_argv, saved_path, saved_env = sys.argv, list(sys.path), os.environ.get("GUNICORN_CMD_ARGS")
+    written = set()
+    try:
+        os.chdir(W.root)
+
+        def put(rc):
+            W.poolmod.V = rc["pool"]
+            for fname, text in rc["files"].items():
+                with open(os.path.join(W.root, fname), "w") as fh:
+                    fh.write(text)
+                written.add(os.path.join(W.root, fname))
+            for mod in rc["modules"]:
+                sys.modules.pop(mod, None)
+            W.cur_dict = rc["dict"]
+        put(rc1)
+        sys.argv = ["gunicorn"] + list(rc1["argv"])
+        if rc1["env"] is None:
+            os.environ.pop("GUNICORN_CMD_ARGS", None)
+        else:
+            os.environ["GUNICORN_CMD_ARGS"] = rc1["env"]
+        with quiet():
+            try:
+                app = W.App("%(prog)s [OPTIONS] [APP_MODULE]", prog="gunicorn")
+                for fname in rc1["files"]:
+                    if fname not in rc2["files"]:
+                        with contextlib.suppress(OSError):
+                            os.unlink(os.path.join(W.root, fname))
+                put(rc2)
+                app.do_load_config()
+                vals = [app.cfg.settings[r["name"]].value for r in W.rows]
+                return ("ok", vals, app.app_uri)
+            except SystemExit as e:
+                return ("exit", e.code)
+            except Exception as e:     # noqa
+                return ("exc", type(e).__name__)
+    finally:
+        sys.argv = saved_argv
+        sys.path[:] = saved_path
+        if saved_env is None:
+            os.environ.pop("GUNICORN_CMD_ARGS", None)
+        else:
+            os.environ["GUNICORN_CMD_ARGS"] = saved_env
+        for pth in written:
+            with contextlib.suppress(OSError):
+                os.unlink(pth)
+        for mod in list(rc1["modules"]) + list(rc2["modules"]):
+            sys.modules.pop(mod, None)
+        sys.modules.pop("__config__", None)
+        os.chdir(W.root)
+
+
+def same_value(a, b):
+    try:
+        return bool(a is b or (type(a) is type(b) and a == b))
+    except Exception:     # noqa
+        return repr(a) == repr(b)
+
+
+def reload_pairs(W, cases, rng, limit):
+    """(case, case after the configuration file lost some of its lines) for cases whose file mentions settings"""
+    out = []
+    for case in cases:
+        fparts = [p for p in case["parts"] if p["src"] == "file"]
+        if not fparts or (case.get("fileloc") or {}).get("form") == "python:" or case.get("expect") or "env_raw" in case:
+            continue
+        drop = set(id(p) for p in fparts if rng.random() < 0.6) or {id(fparts[0])}
+        c2 = dict(case)
+        c2["parts"] = [p for p in case["parts"] if id(p) not in drop]
+        c2["file_present"] = True
+        out.append((case, c2, [p["key"] for p in fparts if id(p) in drop]))
+        if len(out) >= limit:
+            break
+    return out
+
+
+def reload_layer(ctx, W, cases):
+    """A reload is a load: after the sources changed, do_load_config() gives what a fresh start with the new sources gives -
+    in particular a setting that no source mentions ANY MORE is back at its built-in default.  Oracle only."""
+    nbad = n = 0
+    for c1, c2, dropped in reload_pairs(W, cases, ctx.rng, 150 if ctx.quick() else 1500):
+        rc1, _ = prepare(W, c1)
+        rc2, _ = prepare(W, c2)
+        first = W.run_real(rc1)
+        fresh = W.run_real(rc2)
+        if first[0] != "ok" or fresh[0] != "ok":
+            continue
+        again = run_real_reload(W, rc1, rc2)
+        n += 1
+        ctx.count_case(("reload", json.dumps(ser_case(W, c1), sort_keys=True, default=repr), tuple(dropped)), True)
+        ctx.hist("reload_layer", "%d line(s) removed from the file" % len(dropped))
+        what = None
+        if again[0] != "ok":
+            what = "the reload ended with %r although a fresh start with the same sources loads" % (again[:2],)
+        else:
+            diff = [(r["name"], short(a), short(f)) for r, a, f in zip(W.rows, again[1], fresh[1]) if not same_value(a, f)]
+            if diff:
+                what = ("after the configuration file lost its line(s) for %r, a reload leaves %s = %s; a fresh start with the same "
+                        "sources gives %s (no source mentions it any more / a less authoritative one does)"
+                        % (dropped, diff[0][0], diff[0][1], diff[0][2]))
+        if what:
+            nbad += 1
+            if nbad <= 2:
+                ctx.violation("reload: " + what, {"kind": "reload", "case": ser_case(W, c1), "dropped": dropped,
+                                                  "case_after": ser_case(W, c2), "failure": what})
+    ctx.log("reload layer: %d (load, edit the file, load again) pairs against fresh loads; %d failures" % (n, nbad))
+
+
 def prepare(W, case):
     """(rendered, oracle-case): cases written with explicit argument strings carry the parts they mean"""
     rc = render(W, case)
@@ -1057,6 +1167,7 @@ def _run(ctx, W, ok):
                         "outcome": "loaded" if real[0] == "ok" else "exit %s" % (real[1],)}, cap=5)
         if fails:
             failing.append((case, fails))
+    reload_layer(ctx, W, [c for c in cases if c["kind"] in ("random", "matrix")])
     ctx.cov["rule"] = (
         "fixed corner cases of the front ends (option spellings, clusters, abbreviations, shlex quoting, -c/file:/python: "
         "selection), then the exhaustive matrix: every setting x every non-empty subset of the sources able to mention it "
@@ -1136,6 +1247,15 @@ def search(ctx, W, abbr, seeds):
 def replay(rep):
     W = World()
     try:
+        if rep.get("kind") == "reload":
+            c1, c2 = de_case(W, rep["case"]), de_case(W, rep["case_after"])
+            rc1, _ = prepare(W, c1)
+            rc2, _ = prepare(W, c2)
+            fresh, again = W.run_real(rc2), run_real_reload(W, rc1, rc2)
+            diff = [(r["name"], short(a), short(f)) for r, a, f in zip(W.rows, again[1], fresh[1]) if not same_value(a, f)] \
+                if fresh[0] == "ok" and again[0] == "ok" else [("outcome", again[:2], fresh[:2])]
+            print("files before:", rc1["files"], "\nfiles after:", rc2["files"], "\nreload vs fresh start:", diff)
+            return 1 if diff else 0
         case = de_case(W, rep["case"])
         rc, oc, real, fails = evaluate(W, case)
         print("argv:", ["gunicorn"] + rc["argv"])
